@@ -86,6 +86,10 @@ class Zygotes:
         return b''.join(chunks)
 
     def run(self, hs, job, timeout=60, tree=None):
+        self.start(hs, job, timeout, tree)
+        return self.finish(hs, timeout, tree)
+
+    def start(self, hs, job, timeout=60, tree=None):
         p = self.get(hs, tree)
         hs = (hs, tree)
         job = dict(job)
@@ -96,6 +100,18 @@ class Zygotes:
         except BrokenPipeError:
             self.kill(hs)
             raise HarnessError('zygote pipe broken')
+
+    def ended(self, hs, tree=None):
+        """has the simulated process started on this zygote already ended (its report is waiting)?"""
+        p = self.procs.get((hs, tree))
+        if p is None or p.poll() is not None:
+            return True
+        r, _, _ = select.select([p.stdout.fileno()], [], [], 0)
+        return bool(r)
+
+    def finish(self, hs, timeout=60, tree=None):
+        p = self.get(hs, tree)
+        hs = (hs, tree)
         head = self._readline(p, timeout + 10)
         if head is None:
             self.kill(hs)
@@ -152,8 +168,38 @@ def execute(scn, zy: Zygotes, keep=False):
                 for op in proc['ops']:
                     obs.append({'i': op['i'], 'res': parentops.run(op, scn, root), 'inv': [], 'fs': [], 'fired': []})
                 continue
+            if proc.get('nested'):
+                continue        # runs while another simulated process is parked at its `wait` operation
+            _run_proc(scn, zy, root, pi, proc, obs)
+    finally:
+        if not keep:
+            shutil.rmtree(root, ignore_errors=True)
+    # world-root path prefix is the only run-specific string that can reach an observation (error messages)
+    return json.loads(json.dumps(obs).replace(root, '<ROOT>'))
+
+
+def _run_proc(scn, zy, root, pi, proc, obs):
             job = {'world': scn['world'], 'root': root, 'proc': pi, 'ops': proc['ops']}
-            status, lines = zy.run(proc.get('hs', 0), job, tree=proc.get('tree'))
+            waits = [op for op in proc['ops'] if op['op'] == 'wait']
+            if not waits:
+                status, lines = zy.run(proc.get('hs', 0), job, tree=proc.get('tree'))
+            else:
+                # two simulated processes alive at once: this one parks at each `wait`, the nested one runs from start to end, this one goes on
+                zy.start(proc.get('hs', 0), job, tree=proc.get('tree'))
+                for w in waits:
+                    flag = os.path.join(root, f'at_wait_{w["k"]}')
+                    deadline = time.monotonic() + 60
+                    while not os.path.exists(flag) and not zy.ended(proc.get('hs', 0), proc.get('tree')):
+                        if time.monotonic() > deadline:
+                            raise HarnessError('simulated process did not reach its wait operation')
+                        time.sleep(0.0005)
+                    if os.path.exists(flag):
+                        for qi, q in enumerate(scn['procs']):
+                            if q.get('nested') and q.get('id') == w.get('run') and q.get('hs', 0) != proc.get('hs', 0):
+                                _run_proc(scn, zy, root, qi, q, obs)
+                    with open(os.path.join(root, f'resume_{w["k"]}'), 'w') as f_:
+                        f_.write('go')
+                status, lines = zy.finish(proc.get('hs', 0), tree=proc.get('tree'))
             crashed = None
             for ln in lines:
                 if 'child_exception' in ln:
@@ -188,11 +234,6 @@ def execute(scn, zy: Zygotes, keep=False):
                             'fired': crashed.get('fired', []), 'torn': torn, 'last_wopen': crashed.get('last_wopen')})
             elif status != 0:
                 raise HarnessError(f'simulated process exited with status {status} without crash record; lines={lines[-2:]}')
-    finally:
-        if not keep:
-            shutil.rmtree(root, ignore_errors=True)
-    # world-root path prefix is the only run-specific string that can reach an observation (error messages)
-    return json.loads(json.dumps(obs).replace(root, '<ROOT>'))
 
 
 def _tear_len(tear, size):
